@@ -168,6 +168,13 @@ def assertion(B, out):
                 parts.append(("a size-limited expansion returned False although no unexpanded node remains", B.const(len(out["stubs1"]) > 0)))
     parts.append((f"repeated call with relaxed limits succeeds (got {r2['exc']}: {r2.get('msg')})", B.const(r2["exc"] is None)))
     parts.append((f"uninterrupted twin succeeds (got {r3['exc']})", B.const(r3["exc"] is None)))
+    if scn == "lim" and kind in EXP_OPS and r1["exc"] is None and r1["ret"] is False and r2["exc"] is None:
+        o = out["op"]
+        if o.get("level") is None and o.get("stack") is None and o.get("size") is not None:
+            # "returns False only when unexpanded nodes remain" - nodes the call itself would still expand: if the same call
+            # without the limit changes nothing, the limited call had completed its contract and must not report False
+            parts.append(("a size-limited expansion returned False although the unlimited repeat had nothing left to do",
+                          B.const(canon(out["d1"]) != canon(out["d2"]))))
     if r2["exc"] is None and r3["exc"] is None and kind != "blockp":
         parts.append(("resumed diagram equals the uninterrupted one", B.const(canon(out["d2"]) == canon(out["d3"]))))
         if kind not in ("seeds", "cands") or r1["exc"] is not None:
